@@ -89,6 +89,7 @@ struct RecMutex : LockIface {
     void unlock() override { m.unlock(); }
     int locked() override { return -1; }
     bool recursive() override { return true; }
+    const void* addr() override { return &m; }
 };
 template <class S> struct SpinLike : LockIface {
     S m;
